@@ -37,7 +37,12 @@ type capCore struct {
 	maxWriting int
 	lossyClose bool // a failing Close of a written file loses the second half of it
 	persistent bool // once a call has failed, every later call of the same kind fails as well
+	partialDir bool // a failing directory read delivers the first half of its entries together with the error (like os.ReadDir)
 }
+
+// armNext makes the next call of the given kind fail (once); disarm takes the plan back.
+func (c *capCore) armNext(kind string) { c.faultKind, c.kindSeen, c.faultAt, c.fired = kind, 0, 0, "" }
+func (c *capCore) disarm()             { c.faultAt = -1 }
 
 func capKey(ifs []string) string {
 	l := append([]string(nil), ifs...)
@@ -103,10 +108,12 @@ func (c *capCore) openFile(name string, flag int, perm hackpadfs.FileMode) (hack
 		return nil, err
 	}
 	w := c.wrapFile(f, name)
-	if flag&3 != 0 && c.writing != nil {
-		c.writing[name]++
-		if c.writing[name] > c.maxWriting {
-			c.maxWriting = c.writing[name]
+	if flag&3 != 0 {
+		if c.writing != nil {
+			c.writing[name]++
+			if c.writing[name] > c.maxWriting {
+				c.maxWriting = c.writing[name]
+			}
 		}
 		markWriter(w)
 	}
@@ -203,6 +210,10 @@ func (c *capCore) chtimes(name string, a, m time.Time) error {
 }
 func (c *capCore) readDir(name string) ([]hackpadfs.DirEntry, error) {
 	if err := c.hit("ReadDir", name); err != nil {
+		if c.partialDir {
+			ents, _ := hackpadfs.ReadDir(c.inner, name)
+			return ents[:len(ents)/2], err
+		}
 		return nil, err
 	}
 	return hackpadfs.ReadDir(c.inner, name)
@@ -331,6 +342,10 @@ func (f *capFileBase) seek(off int64, wh int) (int64, error) {
 }
 func (f *capFileBase) readDir(n int) ([]hackpadfs.DirEntry, error) {
 	if err := f.c.hit("file.ReadDir", f.name); err != nil {
+		if f.c.partialDir {
+			ents, _ := hackpadfs.ReadDirFile(f.inner, n)
+			return ents[:len(ents)/2], err
+		}
 		return nil, err
 	}
 	return hackpadfs.ReadDirFile(f.inner, n)
@@ -508,7 +523,7 @@ func runC08(t *T) {
 	defer cleanM()
 	innerT, cleanT := c08Inner(t, innerKind)
 	defer cleanT()
-	coreM := &capCore{t: t, inner: innerM, faultAt: -1, short: c.Chance(1, 2)}
+	coreM := &capCore{t: t, inner: innerM, faultAt: -1, short: c.Chance(1, 2), lossyClose: c.Chance(1, 2)}
 	coreT := &capCore{t: t, inner: innerT, faultAt: -1}
 	if c.Chance(1, 2) {
 		coreM.faultAt = c.Weighted(5, 4, 3, 2, 2, 1, 1, 1)
